@@ -92,7 +92,7 @@ fn main() -> Result<()> {
               blocks,
               max_txs: 4,
               inscriptions: true,
-              runes: flags.contains(&"runes"),
+              runes: true, // the chain must not depend on the index flags (C15 compares the same chain under several flag sets)
               update_every: arg_value(&args, "--update-every").map(|s| s.parse().unwrap()).unwrap_or(3),
               reopen: true,
               dup_coinbase: false,
